@@ -85,7 +85,8 @@ func (*baseExecutor) GetScanSlice(columnNames []string, tableMeta *types.TableMe
 				scanSlice = append(scanSlice, &scanVal)
 			}
 		default:
-			scanVal := sql.RawBytes{}
+			// stays nil when the column is NULL (ScanRows.Scan leaves the destination untouched for NULL)
+			var scanVal sql.RawBytes
 			scanSlice = append(scanSlice, &scanVal)
 		}
 	}
@@ -238,6 +239,10 @@ func (b *baseExecutor) containsPKByName(meta *types.TableMeta, columns []string)
 
 func getSqlNullValue(value interface{}) interface{} {
 	if value == nil {
+		return nil
+	}
+	// a NULL scanned into sql.RawBytes is a nil slice, an empty value is an empty one
+	if v, ok := value.(sql.RawBytes); ok && v == nil {
 		return nil
 	}
 	if v, ok := value.(sql.NullString); ok {
